@@ -129,7 +129,7 @@ def run(R):
     S2 = Session()
     c14.core(R, S2, "C16-hash")
     base = S.find("samplerz::base_sampler")
-    tabs = [c09.array_const(prog, c, 16) for t, c in c09.consts_in(prog, base, lambda t: t.tag == "Array" and "u128" in t.s)]
+    tabs = [c09.array_const(prog, c, 16) for t, c in c09.consts_in(prog, base, lambda t: t.tag in ("Array", "Ref") and "u128; 18" in t.s)]
     tabs = [t for t in tabs if t and len(t) == 18]
     R.check(tabs and all(t == pq["rcdt"] for t in tabs), "C16-rcdt", "RCDT", "the sampler table equals PQClean's dist[] recombined", key="rcdt")
     aexp = S.find("samplerz::approx_exp")
